@@ -284,7 +284,7 @@ fn part_a(st: &mut Stats, a: &Args) {
             }
         }
     }
-    let n3 = a.budget(3000, 150_000);
+    let n3 = a.budget(2000, 150_000);
     let rs3 = ranges(0, 4, true);
     let rs3n = ranges(0, 5, false);
     for i in 0..n3 {
@@ -302,7 +302,7 @@ fn part_a(st: &mut Stats, a: &Args) {
 
     // 3. Wallet-like sequences: sorted non-overlapping stored rows first (as replace_queue_entries
     //    feeds them), then 1–3 updates, the last possibly empty.
-    let nw = a.budget(1500, 40_000);
+    let nw = a.budget(1000, 40_000);
     for _ in 0..nw {
         let base = rng.range(0, 1000) as u32 * 100;
         let nrows = rng.range(1, 6);
